@@ -39,6 +39,22 @@ CHECKS = {
          "Exploration: per option the documented relation between render(d,w,base) and render(d,w,base+o) is checked (max_wrap>=w no-op, flat-document equivalence, P+m bound, padding only trailing spaces, strikeout only U+0336, no box characters without borders/raw, footnotes off removes only references and list, unwrapped link notes, non-applicable options are no-ops). One genuine defect (padding adds a blank line after an empty <pre> line) is a known finding.",
          "P as in C11; footnote relation compared modulo runs of spaces, strike marks and prefix-only lines.",
          "DESIGN.md §3 C15"),
+ "C07": ("compositional runtime monitor: render(block,w) vs prefix + render(content, w - prefix width) through the public API",
+         "Exploration: for ul/ol/blockquote/h1-6/dd blocks with generated (nested) content the lines of the block must equal the expected marker/indent/quote prefix followed by the lines of the content rendered separately at the narrower width; ordered markers are start+i, left-aligned and padded to the widest marker of the list; induction over nesting depth covers stacked prefixes.",
+         "Items always have content; footnotes off (global numbering is not compositional).",
+         "DESIGN.md §3 C07"),
+ "C08": ("runtime monitor: footnote list and reference numbers parsed from the output vs link order in the oracle DOM",
+         "Exploration: documents with 0..40 links spread over paragraphs, lists, quotes, headings, dt/dd, table cells and nested tables, with empty links and href-less anchors interleaved; the trailing list must be exactly [k]: href_k (hard-wrapped by character), each intact link token must be followed by its number, nothing of the sort with footnotes off.",
+         "Only the three plain empty-link forms count as empty; a reference cut by a line break is counted as unobserved.",
+         "DESIGN.md §3 C08"),
+ "C12": ("reference-model monitor: tab/line expansion model vs rendered <pre>, bounded-exhaustive atom lines + random blocks",
+         "Exploration with an exhaustive small scope: all single-line <pre> over atoms {a, ab, space, tab, wide char} (quick <=4, thorough <=6 atoms) x widths 1..=12, and random blocks with line lengths around the available width, inline elements, <br>, nesting in li/blockquote: verbatim reproduction when everything fits; width bound, character preservation, line-break preservation and Preformat(false/true) tags otherwise. One genuine tagging defect is a known finding.",
+         "Fits-class lines are compared modulo line-trailing spaces; tags of a first piece after leading whitespace are not judged.",
+         "DESIGN.md §3 C12"),
+ "C16": ("runtime monitor with a parameterised TextDecorator: C07's compositional oracle + width bound + exact affix expectation + trivial-decorator text equality",
+         "Exploration: decorator strings drawn from ASCII / 2-byte width-1 / 3-byte width-2 / empty classes; compositional prefix check by display width, every line within the width, no panic with debug assertions on, flat paragraphs equal to the AST-built expected string with affixes, TrivialDecorator emits nothing but text/whitespace/borders.",
+         "Decorator family is stateless.",
+         "DESIGN.md §3 C16"),
 }
 
 def main():
